@@ -37,6 +37,8 @@ type Frame struct {
 	private   map[*ssa.Alloc]bool
 	curBlock  *ssa.BasicBlock
 	curIdx    int
+	inlineOrd int // k-th expansion of this callee within the function under verification
+	evalAtExit bool
 	escSites  map[*ssa.Alloc][]ssa.Instruction
 }
 
@@ -259,6 +261,7 @@ func (e *Enc) runFunction(fr *Frame, entry pathState) (pathState, []Val, bool) {
 				if len(ins) == 0 {
 					continue
 				}
+				fr.curBlock, fr.curIdx = b, 0
 				cur = e.enterLoop(fr, li, ins)
 			} else {
 				if len(ins) == 0 {
@@ -303,6 +306,7 @@ func (e *Enc) runFunction(fr *Frame, entry pathState) (pathState, []Val, bool) {
 			}
 		}
 	}
+	fr.evalAtExit = true
 	if len(rets) == 0 {
 		// function never returns normally
 		return pathState{"false", entry.st}, nil, true
@@ -430,10 +434,19 @@ func (e *Enc) enterLoop(fr *Frame, li *loopInfo, ins []edgeIn) pathState {
 }
 
 func (e *Enc) loopInvariants(fr *Frame, li *loopInfo) []*Clause {
-	if fr.contract == nil {
-		return nil
+	var out []*Clause
+	if fr.contract != nil {
+		out = append(out, fr.contract.LoopInv[li.ord]...)
 	}
-	return fr.contract.LoopInv[li.ord]
+	if !fr.isTop && e.topContract != nil {
+		// invariants the function under verification supplies for loops of expanded callees
+		for _, c := range e.topContract.InlineLoopInv {
+			if c.Loop == li.ord && calleeMatches(c.Callee, fr.name) && (c.CallK == 0 || c.CallK == fr.inlineOrd) {
+				out = append(out, c)
+			}
+		}
+	}
+	return out
 }
 
 func (e *Enc) checkInvariant(fr *Frame, li *loopInfo, reach string, st *St, when string) {
@@ -509,6 +522,14 @@ func (e *Enc) countersMonotone(before, after *St) {
 		switch {
 		case strings.HasPrefix(name, "calls_") || name == "recvtotal":
 			e.assume(fmt.Sprintf("(>= %s %s)", b1, b0))
+		case strings.HasPrefix(name, "firstret"):
+			// once the first call has happened the recorded first result is fixed
+			us := strings.Index(name, "_")
+			if us > 0 {
+				if cc := e.comps["calls_"+name[us+1:]]; cc != nil {
+					e.assume(implies(fmt.Sprintf("(> %s %s.0)", e.get(before, cc), cc.Name), eq(b1, b0)))
+				}
+			}
 		case strings.HasPrefix(name, "retcount_") || name == "recvcount":
 			e.assume(fmt.Sprintf("(forall ((v Int)) (! (>= (select %s v) (select %s v)) :pattern ((select %s v))))", b1, b0, b1))
 		}
@@ -582,6 +603,7 @@ func (e *Enc) havocMods(fr *Frame, st *St, ms *ModSet, includeLocals bool) {
 	}
 	if forCall && fr != nil {
 		e.restorePrivateCells(fr, st, oldSyms)
+		e.restoreOwned(fr, st, oldSyms)
 	}
 	e.linkMapFacts(st, ms)
 	e.assumeClosed(st, hv)
@@ -1119,6 +1141,10 @@ func (e *Enc) execUnOp(fr *Frame, x *ssa.UnOp, cur *pathState) {
 					res.Fn, res.Binds, res.Ext = pv.Fn, pv.Binds, pv.Ext
 				} else if f, ok := sv.(*ssa.Function); ok {
 					res.Fn = f
+				} else if prm, ok := sv.(*ssa.Parameter); ok {
+					// local copy of a parameter: keep what is known about the argument
+					pv := e.val(fr, prm)
+					res.Fn, res.Binds, res.Ext = pv.Fn, pv.Binds, pv.Ext
 				}
 			}
 		}
@@ -1502,7 +1528,10 @@ func (e *Enc) execRange(fr *Frame, x *ssa.Range, cur *pathState) {
 	vis.Zero = "((as const (Array " + ks + " Bool)) false)"
 	cur.st.v[vis.Name] = vis.Zero
 	start := e.defineFresh(fmt.Sprintf("rstart_f%d_%s", fr.id, x.Name()), "(Array "+ks+" Bool)", sel(e.get(cur.st, d), base.T))
-	fr.regs[x] = Val{It: &iterRec{mapRef: base.T, mapTyp: mt, visited: vis.Name, startDom: start}, Typ: x.Type()}
+	cnt := e.comp(fmt.Sprintf("rcount_f%d_%s", fr.id, x.Name()), "Int", "local", "IT:"+x.Name())
+	cnt.Zero = "0"
+	cur.st.v[cnt.Name] = "0"
+	fr.regs[x] = Val{It: &iterRec{mapRef: base.T, mapTyp: mt, visited: vis.Name, startDom: start, count: cnt.Name}, Typ: x.Type()}
 }
 
 func (e *Enc) execNext(fr *Frame, x *ssa.Next, cur *pathState) {
@@ -1533,6 +1562,16 @@ func (e *Enc) execNext(fr *Frame, x *ssa.Next, cur *pathState) {
 	e.note("map range: keys inserted during iteration are not assumed to be produced; a key deleted and re-inserted during the iteration is assumed produced")
 	v := e.defineFresh(fmt.Sprintf("nextv_f%d", fr.id), vs, sel(sel(e.get(cur.st, vc), it.mapRef), k))
 	e.set(cur.st, vis, ite(ok, store(visT, k, "true"), visT))
+	if it.count != "" {
+		cc := e.comps[it.count]
+		_, _, lcomp := e.mapComps(mt)
+		// a range over a map that was not mutated meanwhile produces exactly len(map) keys
+		e.assumeIf(cur.reach, implies(and(not(ok), eq(dom, it.startDom)), eq(e.get(cur.st, cc), sel(e.get(cur.st, lcomp), it.mapRef))))
+		e.assumeIf(cur.reach, fmt.Sprintf("(>= %s 0)", e.get(cur.st, cc)))
+		// the keys produced so far are distinct members of the (unmutated) map
+		e.assumeIf(cur.reach, implies(and(ok, eq(dom, it.startDom)), fmt.Sprintf("(<= (+ %s 1) %s)", e.get(cur.st, cc), sel(e.get(cur.st, lcomp), it.mapRef))))
+		e.set(cur.st, cc, ite(ok, "(+ "+e.get(cur.st, cc)+" 1)", e.get(cur.st, cc)))
+	}
 	kv := Val{T: k, S: ks, Typ: mt.Key()}
 	vv := Val{T: v, S: vs, Typ: mt.Elem()}
 	e.typeFacts(vv, mt.Elem(), cur)
@@ -1994,4 +2033,91 @@ func (f *Frame) escapesInLoop(a *ssa.Alloc, li *loopInfo) bool {
 		}
 	}
 	return false
+}
+
+// restoreOwned: encapsulation. For every "owns S: f..." declaration whose struct the current
+// callee(s) never access, the maps hanging from the owned fields of the S objects in scope keep
+// their contents across the call.
+func (e *Enc) restoreOwned(fr *Frame, st *St, oldSyms map[string]string) {
+	if len(e.cs.Owns) == 0 || e.curCallees == nil {
+		return
+	}
+	for _, sname := range sortedKeys(e.cs.Owns) {
+		touched := false
+		for _, callee := range e.curCallees {
+			if callee == nil || e.mods.accesses(callee, sanitize(sname)) {
+				touched = true
+			}
+		}
+		if touched {
+			continue
+		}
+		// S objects in scope: pointer-typed parameters of the frames on the stack
+		seen := map[string]bool{}
+		for f := fr; f != nil; f = f.caller {
+			for i, p := range f.fn.Params {
+				pt, ok := p.Type().Underlying().(*types.Pointer)
+				if !ok || i >= len(f.params) {
+					continue
+				}
+				if e.structName(pt.Elem()) != sanitize(sname) {
+					continue
+				}
+				owner := f.params[i].T
+				if seen[owner] {
+					continue
+				}
+				seen[owner] = true
+				e.restoreOwnedOf(pt.Elem(), owner, e.cs.Owns[sname], st, oldSyms)
+			}
+		}
+	}
+	e.note("encapsulation (owns declarations): a callee that never accesses a field of the owning struct leaves the maps stored in its owned fields unchanged")
+}
+
+func (e *Enc) restoreOwnedOf(t types.Type, owner string, fields []string, st *St, oldSyms map[string]string) {
+	u, ok := t.Underlying().(*types.Struct)
+	if !ok {
+		return
+	}
+	pre := func(c *Comp) string {
+		if s, ok := oldSyms[c.Name]; ok {
+			return s
+		}
+		return e.get(st, c)
+	}
+	for i := 0; i < u.NumFields(); i++ {
+		f := u.Field(i)
+		want := false
+		for _, n := range fields {
+			if n == f.Name() {
+				want = true
+			}
+		}
+		if !want {
+			continue
+		}
+		mt, ok := f.Type().Underlying().(*types.Map)
+		if !ok {
+			continue
+		}
+		fc := e.fieldComp(t, i)
+		m := sel(pre(fc), owner)
+		d, v, l := e.mapComps(mt)
+		for _, c := range []*Comp{d, v, l} {
+			if p := pre(c); p != e.get(st, c) {
+				e.assume(eq(sel(e.get(st, c), m), sel(p, m)))
+			}
+		}
+		if inner, ok := mt.Elem().Underlying().(*types.Map); ok {
+			id, iv, il := e.mapComps(inner)
+			ks := e.sortOf(mt.Key())
+			for _, c := range []*Comp{id, iv, il} {
+				if p := pre(c); p != e.get(st, c) {
+					e.assume(fmt.Sprintf("(forall ((k %s)) (! (=> (select (select %s %s) k) (= (select %s (select (select %s %s) k)) (select %s (select (select %s %s) k)))) :pattern ((select (select %s %s) k))))",
+						ks, pre(d), m, e.get(st, c), pre(v), m, p, pre(v), m, pre(v), m))
+				}
+			}
+		}
+	}
 }
